@@ -183,6 +183,15 @@ def str_assign_move(E, st, a):
     if not (a[0] == a[1]):
         Str(E, st, a[0]).assign_bytes(Str(E, st, a[1]).data()); Str(E, st, a[1]).assign_bytes([])
     return a[0]
+def str_insert_cstr(E, st, a):
+    S = Str(E, st, a[0]); d = S.data(); ins = list(E.read_cstr(st, a[2])); S.assign_bytes(d[:a[1]] + ins + d[a[1]:]); return a[0]
+def str_insert_str(E, st, a):
+    S = Str(E, st, a[0]); d = S.data(); ins = Str(E, st, a[2]).data(); S.assign_bytes(d[:a[1]] + ins + d[a[1]:]); return a[0]
+def str_ctor_fill(E, st, a):
+    S = Str(E, st, a[0]); S.init_local()
+    n = E.use(st, a[1], 'string length')
+    if not is_c(n): n = E.concretize(st, n, 'string length')
+    S.assign_bytes([a[2]] * n); return None
 def str_resize1(E, st, a): return str_resize(E, st, [a[0], a[1], 0])
 def str_c_str(E, st, a): return Str(E, st, a[0]).p()
 def str_size(E, st, a): return Str(E, st, a[0]).size()
@@ -334,6 +343,8 @@ BASIC = {
     '_ZNSt7__cxx1112basic_stringIcSt11char_traitsIcESaIcEE6assignEPKcm': str_assign_n,
     '_ZNSt7__cxx1112basic_stringIcSt11char_traitsIcESaIcEEaSERKS4_': str_assign_copy, '_ZNSt7__cxx1112basic_stringIcSt11char_traitsIcESaIcEEaSEOS4_': str_assign_move,
     '_ZNSt7__cxx1112basic_stringIcSt11char_traitsIcESaIcEE6resizeEm': str_resize1,
+    '_ZNSt7__cxx1112basic_stringIcSt11char_traitsIcESaIcEE6insertEmPKc': str_insert_cstr, '_ZNSt7__cxx1112basic_stringIcSt11char_traitsIcESaIcEE6insertEmRKS4_': str_insert_str,
+    '_ZNSt7__cxx1112basic_stringIcSt11char_traitsIcESaIcEEC2EmcRKS3_': str_ctor_fill, '_ZNSt7__cxx1112basic_stringIcSt11char_traitsIcESaIcEEC1EmcRKS3_': str_ctor_fill,
     '_ZNKSt7__cxx1112basic_stringIcSt11char_traitsIcESaIcEE5c_strEv': str_c_str, '_ZNKSt7__cxx1112basic_stringIcSt11char_traitsIcESaIcEE4dataEv': str_c_str,
     '_ZNKSt7__cxx1112basic_stringIcSt11char_traitsIcESaIcEE4sizeEv': str_size, '_ZNKSt7__cxx1112basic_stringIcSt11char_traitsIcESaIcEE6lengthEv': str_size,
     '_ZNSt7__cxx1112basic_stringIcSt11char_traitsIcESaIcEED2Ev': str_dtor,
